@@ -1,9 +1,6 @@
 """C15 — the outcome of load() does not depend on earlier loads on the same dataset."""
 from __future__ import annotations
 
-from . import io_rules as io
-from . import io_rules2 as io2
-from . import loader_rules as lr
 
 EXPLANATION = '(R1/R2) reader.initialize histories for every reader class (selected with files -> switched off -> selected without files): initialised exactly when selected and present, the AMR reader drops the cpu list of an earlier load; descriptor_to_variables rebuilds every record (no pieces of an earlier load); (R3) two consecutive loads on ONE Loader object (different selection and cpu list): the second is unaffected by the first (selection, level cap, counters, pieces, output objects); (R4) offsets zeroed and bytes replaced before every header of every file; (R5) the sink group is parsed anew on every load.'
 NOT_DECIDED = 'state kept by numba/matplotlib; file-system races'
@@ -15,13 +12,13 @@ from . import io_folds as iof
 
 
 def r1(run, tree):
-    run.rule("C15.R1", "definite reset of consulted reader state", "definite assignment over all paths", "", floor=1)
+    run.rule("C15.R1", "definite reset of consulted reader state", "D7 history folds of reader.initialize and of Loader.load (two loads on one Loader)", "", floor=1)
     iof.check_reader_initialize(run, tree)
     lfold.check_load(run, tree)
 
 
 def r2(run, tree):
-    run.rule("C15.R2", "per-call re-initialisation of every reader", "path rule", "", floor=10)
+    run.rule("C15.R2", "per-call re-initialisation of every reader", "D7 history folds of reader.initialize and Reader.descriptor_to_variables", "", floor=10)
     iof.check_reader_initialize(run, tree)
     iof.check_descriptor_to_variables(run, tree)
 
